@@ -46,7 +46,7 @@ def run(tier):
     configs = []
     inputs = {"valid": (["a.pn"], True), "multi": (["main.pn", "lib.pn"], True), "invalid": (["bad.pn"], False), "mixed": (["a.pn", "bad.pn"], False),
               "dirs": (["top.pn", "geo/util.pn", "audio/util.pn"], True), "hint": (["hint.pn"], False),
-              "notes": (["notes.pn", "a.pn"], True)}        # a module without declarations (only a comment) is a module
+              "notes": (["notes.pn", "a.pn"], True), "zero": (["a.pn", "zero.pn"], False)}   # a zero-byte file is an error (E101)        # a module without declarations (only a comment) is a module
     for sub in ("build", "run", "emit"):
         for inp in inputs:
             opts_space = [("silent", [False, True]), ("verbose", [False, True]), ("color", [None, "never", "always"]), ("arrows", [None, "ascii", "unicode"]),
@@ -68,6 +68,7 @@ def run(tier):
         open(os.path.join(d, "main.pn"), "w").write(VALID_MULTI[0]); open(os.path.join(d, "lib.pn"), "w").write(VALID_MULTI[1])
         open(os.path.join(d, "bad.pn"), "w").write(INVALID); open(os.path.join(d, "hint.pn"), "w").write(INVALID_HINT)
         open(os.path.join(d, "notes.pn"), "w").write("// notes only: nothing is declared here\n")
+        open(os.path.join(d, "zero.pn"), "w").write("")
         for rel, text in DIRS.items():
             os.makedirs(os.path.dirname(os.path.join(d, rel)) or d, exist_ok=True); open(os.path.join(d, rel), "w").write(text)
         for nm in ("stubF", "stubE", "stubC", "clang", "lli"):
@@ -135,7 +136,7 @@ def run(tier):
                 if os.path.exists(path) and "wasm32" not in open(path).read().split("target triple")[1].split("\n")[0]:
                     bad += 1; ck.violation("wasm-module-triple", "--wasm: the IR written for module %s does not have the wasm32 target triple" % f, replay); break
         if not ok and not o["silent"]:
-            if (b"E402" if inp != "hint" else b"E47") not in out:
+            if (b"E101" if inp == "zero" else b"E402" if inp != "hint" else b"E47") not in out:
                 bad += 1; ck.violation("diagnostic-missing", "failing compilation without a rendered diagnostic (%s)" % desc, replay); continue
             if o["color"] == "never" and b"\x1b" in out:
                 bad += 1; ck.violation("color-never-ignored", "--color=never but ANSI escapes were printed (%s)" % desc, replay); continue
